@@ -26,14 +26,14 @@ func init() {
 		},
 		Rules: []RuleDef{
 			{Name: "C13-SINGLE", Floor: 1, Doc: "the underlying WriteHeader is called only inside bufferedWriter, after headerSent tested false, and headerSent is true on every exit after it", Run: c13Run},
-			{Name: "C13-BODY", Floor: 2, Doc: "every body write to the underlying ResponseWriter is preceded on all paths by the header commit (sendHeader/WriteHeader)", Run: nop},
-			{Name: "C13-FROZEN", Floor: 3, Doc: "status and statusSet are assigned only where headerSent is known false", Run: nop},
-			{Name: "C13-PENDING", Floor: 2, Doc: "a method that records a status marks it pending (statusSet=true) or commits before returning", Run: nop},
-			{Name: "C13-VALUE", Floor: 2, Doc: "the code handed to the commit is the recorded status", Run: nop},
+			{Name: "C13-BODY", Floor: 1, Doc: "every body write to the underlying ResponseWriter is preceded on all paths by the header commit (sendHeader/WriteHeader)", Run: nop},
+			{Name: "C13-FROZEN", Floor: 2, Doc: "status and statusSet are assigned only where headerSent is known false", Run: nop},
+			{Name: "C13-PENDING", Floor: 1, Doc: "a method that records a status marks it pending (statusSet=true) or commits before returning", Run: nop},
+			{Name: "C13-VALUE", Floor: 1, Doc: "the code handed to the commit is the recorded status", Run: nop},
 			{Name: "C13-OWNER", Floor: 3, Doc: "the raw ResponseWriter is used only inside bufferedWriter's methods; Write/WriteHeader are bufferedWriter's own methods; no interface-typed ResponseWriter is written to elsewhere in the package", Run: nop},
-			{Name: "C13-DISPATCH", Floor: 6, Doc: "each script-facing response method (status, writeHeader, write, redirect, noContent, json, html, header, cookie) reaches the bufferedWriter operation of that name", Run: nop},
-			{Name: "C13-MWORDER", Floor: 0, Doc: "applyMiddlewares: for the recognised shape (sort of a copy by priority + wrapping loop) the comparator direction, the stability of the sort and the wrapping direction together give ascending priority outermost-first with ties in registration order; unrecognised shapes are not judged", Run: nop},
-			{Name: "C13-PAIR", Floor: 4, Doc: "each beginResponse call is followed by defer commitPending on the same writer before any handler code or exit", Run: nop},
+			{Name: "C13-DISPATCH", Floor: 4, Doc: "each script-facing response method (status, writeHeader, write, redirect, noContent, json, html, header, cookie) reaches the bufferedWriter operation of that name", Run: nop},
+			{Name: "C13-MWORDER", Floor: 1, Doc: "applyMiddlewares: for the recognised shape (sort of a copy by priority + wrapping loop) the comparator direction, the stability of the sort and the wrapping direction together give ascending priority outermost-first with ties in registration order; unrecognised shapes are not judged", Run: nop},
+			{Name: "C13-PAIR", Floor: 2, Doc: "each beginResponse call is followed by defer commitPending on the same writer before any handler code or exit", Run: nop},
 		},
 	})
 }
